@@ -1,0 +1,29 @@
+//go:build verif
+
+package secec
+
+import (
+	"io"
+
+	"gitlab.com/yawning/secp256k1-voi"
+)
+
+// Verification hooks: thin forwarders to unexported helpers, only built
+// with `-tags verif`.  No logic lives here.
+
+// VerifSampleRandomScalar forwards to sampleRandomScalar.
+func VerifSampleRandomScalar(rand io.Reader) (*secp256k1.Scalar, error) {
+	return sampleRandomScalar(rand)
+}
+
+// VerifNewDrbgRFC6979 forwards to newDrbgRFC6979.
+func VerifNewDrbgRFC6979(x, e *secp256k1.Scalar) io.Reader { return newDrbgRFC6979(x, e) }
+
+// VerifVerifyWithPrivateKey runs the SEC 1 4.1.5 alternative verifying
+// operation (the path used by SelfVerify).
+func VerifVerifyWithPrivateKey(d *PrivateKey, digest []byte, r, s *secp256k1.Scalar) bool {
+	return nil == verify(d, nil, digest, r, s)
+}
+
+// VerifHashToScalar forwards to hashToScalar.
+func VerifHashToScalar(hash []byte) (*secp256k1.Scalar, error) { return hashToScalar(hash) }
